@@ -6,7 +6,7 @@ HERE = os.path.dirname(os.path.dirname(os.path.abspath(__file__)))
 PROPS = [json.loads(l)["id"] for l in open(os.path.join(HERE, "properties.jsonl"))]
 
 CHECKS = {
-    "C01": ("bounded-exhaustive exploration of the real parser + serde: every (alignment context, type tree) struct shape up to constructor depth 2 (thorough 3), every bit offset, widths 1..64 (thorough), every boundary-value combination, plus structs whose fields share a field id; oracle decode(encode(v)) == v bit-for-bit",
+    "C01": ("bounded-exhaustive exploration of the real parser + serde: every (alignment context, type tree) struct shape up to constructor depth 2 (thorough 3), every bit offset, widths 1..64 (thorough), every boundary-value combination, plus structs whose fields share a field id, and strings beyond 7-bit ASCII (leading U+FEFF, 2/3/4-byte characters, NUL) at every position a string can take; oracle decode(encode(v)) == v bit-for-bit",
             "exhaustive only inside the stated alphabets (boundary values, 7-bit strings, <=3 fields of the enumerated kinds); CPython, lark, pyserde trusted",
             "explicit-state enumeration of schema shapes x boundary values executed on the implementation"),
     "C02": ("same state space as C01 plus every sequence of codec calls up to length 3/4 in one process (failing calls included); oracle is a reference wire codec (bound to the 26 project vectors at the start of every run): serde.encode(v) == canonical bytes and serde.decode(canonical bytes) == v",
@@ -15,11 +15,11 @@ CHECKS = {
     "C04": ("every fixed-size struct shape (1..3 fields, thorough 4) x every field-id permutation x unroll flag laid out by the real PackedEncoder against a reference layout and the model-free tiling invariant; every generate() history up to length 3 (4) on one live encoder by fork-snapshot",
             "reference layout fcpmc/reflayout.py; an unrolled array element carries the options declared for its array field; arrays next to fields named like their elements",
             "explicit-state enumeration + fork-snapshot history exploration"),
-    "C07": ("every schema description of a small scope (all grammar productions, nested types to depth 2/3, every extension value form, lexer-colliding identifiers in every slot) x every formatting variant (incl. CRLF/CR text, no parentheses, no pipes) parsed by the real front end; oracle: independently built expected tree and cross-variant equality",
+    "C07": ("every schema description of a small scope (all grammar productions, nested types to depth 2/3, every extension value form, lexer-colliding identifiers in every slot, ids and sizes at the byte boundaries inside the record's u32 slots, string literals ending in an escaped quote) x every formatting variant (incl. CRLF/CR text, no parentheses, no pipes) parsed by the real front end; oracle: independently built expected tree and cross-variant equality",
             "expected-tree builder bound to the repository's golden JSON files", "explicit-state enumeration of descriptions x formatting variants"),
     "C08": ("every placement of a referenced declaration (before/after/self/undeclared/imported before/after/nested/dotted) x every wrapper chain x interleaved unrelated declarations, module cases on a real file tree incl. one module reached along two import paths; every acyclic import graph over 4 files (and a family over 5) with one cross-file reference against a visibility model; oracle: resolution spec",
             "duplicate type names are C09's subject", "explicit-state enumeration against a resolution specification"),
-    "C09": ("all schema trees of per-rule sub-scopes built through the constructors x 3 check-set configurations x every permutation of the declaration lists (incl. two CAN bindings x ids x buses none/b1/b2/default); oracle: three-valued reference predicate + permutation invariance",
+    "C09": ("all schema trees of per-rule sub-scopes built through the constructors x 3 check-set configurations x every permutation of the declaration lists (incl. two CAN bindings x ids x buses none/b1/b2/default; binding/type/enum/device trees also built without source positions, i.e. with equal nodes); oracle: three-valued reference predicate + permutation invariance",
             "statement-silent cases (non-CAN binding > 64 bits under the C check set) accept either verdict", "small-scope exhaustive enumeration against a reference predicate"),
     "C10": ("for each generator every check evaluation of the verification run is made to fail in turn (fault enumeration through Verifier.register) x pre-existing directory states (incl. a missing nested directory, stale files of exactly the new size); plug-ins returning one path twice; an uncategorized check; a stub plug-in writing into sub-directories; CLI exit status; rule-violating schemas; accepted runs vs the plug-in's returned files; generate() histories by fork-snapshot; CLI",
             "an exception counts as an error report; deletions by a plug-in's own generate() on accepted schemas are not judged", "exhaustive fault-point enumeration + history exploration with directory snapshots"),
@@ -29,7 +29,7 @@ CHECKS = {
             "expected record builder fcpmc/reftree.py", "explicit-state enumeration against a reference model + round trip"),
     "C16": ("every byte truncation point of every canonical encoding of the C01 shape/value space and every length prefix replaced by {n+1,n+2,255,65536,2^31,2^32-1}; decode must raise whenever the reference decoder runs out of bits, and dynamic arrays of zero-width elements given only a count prefix (from text and from trees built through the constructors); inside a deterministic step budget linear in the input",
             "step budget counted with sys.setprofile (calls), no wall clock; termination is a bounded statement", "exhaustive fault-point enumeration (truncation, corrupted length prefixes)"),
-    "C17": ("every (generator, schema) under 4/16 hash seeds in fresh processes compared file by file; every history over {parse(s), gen(g,s)} up to depth 3/4 in one process by fork-snapshot, each gen node compared with the fresh-process reference (history schemas declare fields against their ids and leave signal-block options to their defaults, so a generator that writes into the tree shows in the next one)",
+    "C17": ("every (generator, schema) under 4/16 hash seeds in fresh processes compared file by file; every history over {parse(s), gen(g,s)} up to depth 3/4 in one process by fork-snapshot, each gen node compared with the fresh-process reference (history schemas declare fields against their ids and leave signal-block options to their defaults, so a generator that writes into the tree shows in the next one); for every schema each generator after each (thorough: each pair of) generator(s); a module file edited between two parses of the importing schema",
             "only the documented stamp line is masked", "configuration enumeration + fork-snapshot history exploration"),
     "C20": ("every closed assignment of a base schema's declarations to {main, m1, m2} x topology star/chain x path depth x mod position on a real file tree vs the single-file parse; diamond layouts (a shared module imported by main and by another module); every acyclic import graph over 4 one-struct files (ordered import lists, repeats); the same split parsed through the string entry point (also with the module called main.fcp); every injected module error must be an Err naming the module",
             "cross-file declaration order is not judged, only per-category multisets", "exhaustive enumeration of module splits, differential oracle"),
@@ -40,16 +40,16 @@ CHECKS.update({
     "C05": ("CAN schemas (1..3-field (thorough 4) messages <= 64 bits over all fixed-size kinds, options declared for array fields incl. arrays of arrays, big-endian subsets, mux subsets and counts, selectors inside nested structs (one and two levels) and names beyond 32 characters, option values at the edge (mux_count alone, endianess spellings, frame ids beyond 11 bits), units at every level, 1..3 bindings over 3 buses) through the real fcp_dbc generator; own DBC reader vs reference layout + geometry; cantools decodes every reference-packed boundary frame",
             "cantools is the independent decoder; big-endian only on byte-aligned 8/16/32/64-bit fields", "explicit-state enumeration against a reference layout + independent decoder"),
     "C06": ("every flat CAN message of 1..3 signals (4 in thorough) over {u/i 1,5,8,12,16,24,32,33,64, f32, f64, enums} <= 64 bits + directed 5..8-signal messages through the real fcp_can_c generator, gcc, generated main(): frame id/dlc/data == reference packing, decode(encode(v)) == v",
-            "gcc 12; NaN/infinities excluded (no portable literal), -0.0 compared bit for bit; a naming family (device/message/binding/enum/signal names of every casing, leading underscores, frame ids at and beyond 11 bits)", "explicit-state enumeration of generator inputs, compiled and executed against a reference model"),
+            "gcc 12; NaN/infinities excluded (no portable literal), -0.0 compared bit for bit; a naming family (device/message/binding/enum/signal names of every casing, two devices with interleaved declarations, leading underscores, frame ids at and beyond 11 bits)", "explicit-state enumeration of generator inputs, compiled and executed against a reference model"),
     "C13": ("C03's struct space in the same harness: the reflection binary produced by the Python tool is loaded with LoadBinarySchema and the dynamic codec's bytes/values are compared with the static codec's for every boundary value; LoadBinarySchema histories on one object (older revision then newer); enum numbers without enumerator",
             "enumerator values stay below 2^31 (the reflection record's slot, open C12 finding); a run-time schema that does not compile is a violation, not a skip", "explicit-state enumeration, differential oracle (static vs dynamic codec)"),
-    "C14": ("CAN bindings of every size 57..72, 80, 96, 128, 200 bits with the excess in a scalar, nested struct, array, array of structs or enum at first/middle/last position, every placement of a str/dynamic array/optional, odd big-endian placements behind multiplexing relations, and multiplexed signals behind a leading selector at the end of messages of 64..72 bits; DBC generate and the can_c generation command must fail and emit nothing for > 64 bits / variable size; geometry of everything emitted",
+    "C14": ("CAN bindings of every size 57..72, 80, 96, 128, 200 bits with the excess in a scalar, nested struct, array, array of structs or enum at first/middle/last position, every placement of a str/dynamic array/optional, odd big-endian placements behind multiplexing relations, multiplexed signals behind a leading selector at the end of messages of 64..72 bits, and oversize structs bound to a protocol spelled CAN/Can/cAN; DBC generate and the can_c generation command must fail and emit nothing for > 64 bits / variable size; geometry of everything emitted",
             "an exception counts as failing with an error", "explicit-state enumeration around the size limit + geometric invariant on emitted artefacts"),
     "C15": ("every struct with 2-3 fields (4 in thorough) over representative kinds x EVERY permutation of the declaration order (ids fixed) compared with its id-sorted twin in all back ends: Python codec, packed layout, DBC, generated C frames (gcc), C++ static and dynamic bytes",
             "CAN back ends on the fixed-size subset <= 64 bits", "exhaustive permutation enumeration, differential oracle"),
     "C18": ("schemas with 1..4 CAN bindings (payloads 1,7,8,9,33,64 bits, mixed and beyond 8 bytes (72 bits, strings), bus names beyond the 4-byte tag (under ASan), the generator's headers in another include order, ids {0,1,100,2047}, bus names of length 1..4, prefix-related buses, long names) through Can{CanStaticSchema} and Can{CanDynamicSchema}: encode == reference frame; decode of every frame and of every frame with the id or one bus character changed",
             "bindings named after their struct", "explicit-state enumeration of schemas x frames against a reference frame, static/dynamic differential"),
-    "C19": ("for every device (1..3 messages, 4 in thorough; periods from {absent,-1,1,2,3,5}) EVERY call history of length 5 (7 for selected devices in thorough) over the delta alphabet {0,1,P-1,P,P+1,2P,wrap} on the generated C scheduler, one forked process per history; two devices linked into one program (declared grouped and interleaved) called with the same timestamps in every order pattern; oracle: reference automaton + independent trace invariant + frame contents",
+    "C19": ("for every device (1..3 messages, 4 in thorough; periods from {absent,-1,0,1,2,3,5}, plus devices with periods 2^31, 2^32-1, 2^32, 2^32+10) EVERY call history of length 5 (7 for selected devices in thorough) over the delta alphabet {0,1,P-1,P,P+1,2P,wrap} on the generated C scheduler, one forked process per history; two devices linked into one program (declared grouped and interleaved) called with the same timestamps in every order pattern; oracle: reference automaton + independent trace invariant + frame contents",
             "gcc 12; 32-bit wrap exercised through deltas 2^32-3 and a start at 2^32-2", "exhaustive exploration of call histories of the real compiled code (fork per history) against a reference automaton"),
 })
 PENDING = {}
